@@ -7,7 +7,43 @@ import _fmt  # noqa: E402
 import vlib  # noqa: E402
 
 
-def signature(case, v, prev=""):
+def comment_texts(toks):
+    """one string per comment: its tokens' texts joined (whitespace-insensitive)"""
+    out, cur = [], None
+    for t in toks:
+        if t["k"] == "#Comment":
+            cur = []
+            out.append(cur)
+        elif t.get("c") and cur is not None:
+            cur.append("".join(t["t"].split()))
+    return ["".join(x) for x in out]
+
+
+def comment_signature(case, o, v):
+    """a run stuck at a comment: was a comment dropped, duplicated or moved, and in which layout"""
+    ci, co = comment_texts(o["in"]), comment_texts(o["out"])
+    what = "dropped" if len(co) < len(ci) else "duplicated" if len(co) > len(ci) else "moved"
+    # layout of the comment in the source: what follows it on the same line
+    toks = o["in"]
+    idx = min(v["i"] - 1, len(toks) - 1)
+    while idx > 0 and not toks[idx].get("c"):
+        idx -= 1          # the comment nearest to the stuck position
+    end = idx
+    while end + 1 < len(toks) and toks[end + 1].get("c") and toks[end + 1]["k"] != "#Comment":
+        end += 1
+    text = case["text"].encode("utf-8")
+    stop = toks[end]["o"] + len(toks[end]["t"].encode("utf-8"))
+    rest = text[stop:].split(b"\n")[0].strip()
+    if not rest:
+        where = "end-of-line"
+    elif rest.startswith(b";"):
+        where = "before-semicolon"
+    else:
+        where = "before-code-on-same-line"
+    return "C05/comment-%s/%s" % (what, where)
+
+
+def signature(case, v, prev="", o=None):
     """mechanism key of a rejected run (what the automaton could not explain, not where)"""
     why = v["why"]
     if why != "stuck":
@@ -34,6 +70,8 @@ def signature(case, v, prev=""):
             n -= 1
         ka, kb = x[n:].split("(")[0].split(")")[0], y[n:].split("(")[0].split(")")[0]
         return "C05/doc-structure-changed/%s->%s" % (ka or "end", kb or "end")
+    if (a["k"] == "#Comment") != (b["k"] == "#Comment") and o is not None:
+        return comment_signature(case, o, v)
     where = "doc" if (a.get("c") or b.get("c")) else "code"
     return "C05/stuck/%s/%s->%s" % (where, a["k"], b["k"])
 
@@ -70,7 +108,7 @@ def run(ctx):
         if v["why"] == "stuck":
             code = [t for t in o["in"][: v["i"] - 1] if not t.get("c")]
             prev = code[-1]["k"] if code else "start"
-        found.setdefault(signature(c, v, prev), []).append({
+        found.setdefault(signature(c, v, prev, o), []).append({
             "src": c["src"], "cfg": c["cfg"], "verdict": {k: v[k] for k in v if k != "id"},
             "source_near": _fmt.snippet(c["text"], a_off, 120), "output_near": _fmt.snippet(o["out_text"], b_off, 120),
             "text": c["text"] if len(c["text"]) < 600 else None})
